@@ -40,13 +40,17 @@ class ScriptedRNG:
         self.answer = answer
         self.calls = []  # (fn, n, a)
         self.cap = cap
+        self.desync = False
 
     def ask(self, fn, n):
         if len(self.calls) >= self.cap:
             raise StepCap()
         a = int(self.answer(fn, int(n)))
         if not 0 <= a < n:
-            raise AssertionError(f"script answered {a} for {fn}/{n}")
+            # the replayed prefix no longer fits the requests: randomness reaches the code through an entry point the
+            # script does not control (the execution is not reproducible) - never let the instrumentation raise into the code
+            self.desync = True
+            a = a % max(int(n), 1)
         self.calls.append((fn, int(n), a))
         return a
 
@@ -112,8 +116,21 @@ class ScriptedRNG:
             vals = np.where(bits == 1, 0.0, 1.0 - 2.0**-20)
             return vals.reshape(shape) if shape else float(vals[0])
 
-        random.choice, random.randint = choice, randint
-        np.random.randint, np.random.choice, np.random.rand = np_randint, np_choice, np_rand
+        def guarded(stub, orig):
+            def call(*a, **k):
+                try:
+                    return stub(*a, **k)
+                except StepCap:
+                    raise
+                except Exception:  # noqa: BLE001 - a request form the script does not model: use the real RNG, mark the run
+                    s.desync = True
+                    return orig(*a, **k)
+
+            return call
+
+        o_choice, o_randint, o_np_randint, o_np_choice, o_np_rand = self._saved
+        random.choice, random.randint = guarded(choice, o_choice), guarded(randint, o_randint)
+        np.random.randint, np.random.choice, np.random.rand = guarded(np_randint, o_np_randint), guarded(np_choice, o_np_choice), guarded(np_rand, o_np_rand)
         return self
 
     def __exit__(self, *a):
@@ -356,6 +373,11 @@ def learn_wilson_chain(R, C, time_limit=600.0, step_cap=5000, seed=1):
                 return kk
 
             def randint(low, high=None, size=None, **k):
+                if high is None:
+                    low, high = 0, low
+                if np.ndim(high) == 0 and size is None:
+                    # a scalar request (e.g. an index drawn with randint instead of choice): same bookkeeping as choice(n)
+                    return int(low) + choice(int(high) - int(low))
                 hs = [int(h) for h in np.asarray(high).ravel()]
                 n = 1
                 for h in hs:
@@ -375,6 +397,9 @@ def learn_wilson_chain(R, C, time_limit=600.0, step_cap=5000, seed=1):
             try:
                 return fn(np.array([R, C]))
             except StepCap:
+                return None
+            except Exception:  # noqa: BLE001 - the stubs do not fit the code's RNG requests: the chain cannot be learned
+                broken[0] = True
                 return None
             finally:
                 sys.settrace(old)
